@@ -56,6 +56,10 @@ package internal
 //@   modifies heap configv1.Filter.Type, heap oidcv1.OIDCConfig.Scopes, cfg.DefaultOidcConfig, above(watermark()), ghost CloneMark
 //@   ensures  no_override: result == nil ==> forall i int, j int :: 0 <= i && i < len(cfg.Chains) && 0 <= j && j < len(cfg.Chains[i].Filters) ==> !istype(cfg.Chains[i].Filters[j].Type, *configv1.Filter_OidcOverride)
 //@   ensures  shape: WFConfig(cfg) && cfg.Chains == old(cfg.Chains)
+//@   ensures  openid: result == nil ==> forall i int, j int :: 0 <= i && i < len(cfg.Chains) && 0 <= j && j < len(cfg.Chains[i].Filters) ==> (cfg.Chains[i].Filters[j].GetOidc() != nil ==> HasOpenID(cfg.Chains[i].Filters[j].GetOidc()))
+//@   loop 1 invariant oid1: forall i int, j int :: 0 <= i && i <= rangeindex1 && 0 <= j && j < len(cfg.Chains[i].Filters) ==> (cfg.Chains[i].Filters[j].GetOidc() != nil ==> HasOpenID(cfg.Chains[i].Filters[j].GetOidc()))
+//@   loop 2 invariant oid1: forall i int, j int :: 0 <= i && i <= rangeindex1 && 0 <= j && j < len(cfg.Chains[i].Filters) ==> (cfg.Chains[i].Filters[j].GetOidc() != nil ==> HasOpenID(cfg.Chains[i].Filters[j].GetOidc()))
+//@   loop 2 invariant oid2: forall j int :: 0 <= j && j <= rangeindex2 ==> (cfg.Chains[rangeindex1 + 1].Filters[j].GetOidc() != nil ==> HasOpenID(cfg.Chains[rangeindex1 + 1].Filters[j].GetOidc()))
 //@   loop 1 invariant wf: cfg != nil && WFConfig(cfg) && cfg.Chains == $rangeslice1
 //@   loop 1 invariant done1: forall i int, j int :: 0 <= i && i <= rangeindex1 && 0 <= j && j < len(cfg.Chains[i].Filters) ==> !istype(cfg.Chains[i].Filters[j].Type, *configv1.Filter_OidcOverride)
 //@   loop 2 invariant done1: forall i int, j int :: 0 <= i && i <= rangeindex1 && 0 <= j && j < len(cfg.Chains[i].Filters) ==> !istype(cfg.Chains[i].Filters[j].Type, *configv1.Filter_OidcOverride)
@@ -73,6 +77,7 @@ package internal
 //@   modifies fields(addr(l.Config)), heap configv1.Filter.Type, heap oidcv1.OIDCConfig.Scopes, heap oidcv1.RedisConfig.ServerUri, above(watermark()), ghost CloneMark
 //@   ensures  typed: result == nil ==> FiltersTyped(addr(l.Config))
 //@   ensures  resolved: result == nil ==> ChainsResolved(addr(l.Config))
+//@   ensures  openid: result == nil ==> forall i int, j int :: 0 <= i && i < len(addr(l.Config).Chains) && 0 <= j && j < len(addr(l.Config).Chains[i].Filters) ==> (addr(l.Config).Chains[i].Filters[j].GetOidc() != nil ==> HasOpenID(addr(l.Config).Chains[i].Filters[j].GetOidc()))
 //@   loop 1 invariant wf: l != nil && WFConfig(addr(l.Config)) && CallbacksParse(addr(l.Config)) && addr(l.Config).Chains == $rangeslice1
 //@   loop 1 invariant noover: addr(l.Config).DefaultOidcConfig == nil ==> forall i int, j int :: 0 <= i && i <= rangeindex1 && 0 <= j && j < len(addr(l.Config).Chains[i].Filters) ==> addr(l.Config).Chains[i].Filters[j].GetOidcOverride() == nil
 //@   loop 2 invariant wf: l != nil && WFConfig(addr(l.Config)) && CallbacksParse(addr(l.Config)) && addr(l.Config).Chains == $rangeslice1 && addr(l.Config).Chains[rangeindex1 + 1].Filters == $rangeslice2
